@@ -283,6 +283,44 @@ def judge_region(reg, ref, lons, lats, desc, failures, hsh, counters, cells=None
             break
         if in_place and out is not cat:
             fail('filter_spatial', 'in-place-returns-other-object', '')
+    # history: the SAME catalog object is first gridded on a twin region (same cells and name, other mask flags, so that the
+    # two regions have equal dictionary forms) and on a shifted region, then re-bound to this region: results must be those
+    # of this region (no index may survive the re-binding)
+    if cells is not None and origins is not None:
+        all1 = fixtures.cartesian_region(origins, ref.dh, mask=[1] * n, name=reg.name)       # equal dictionary form, every cell active
+        shifted = fixtures.cartesian_region([(x + ref.dh, y) for x, y in origins], ref.dh, name=reg.name)
+        in_any = ~numpy.asarray(all1.get_masked(lons, lats))
+        in_both = ~masked & ~numpy.asarray(shifted.get_masked(lons, lats))
+        for other, sel, label in ((all1, in_any, 'a twin region (same cells and name, all flags 1)'), (shifted, in_both, 'a shifted region')):
+            if not sel.any():
+                continue
+            hc = CSEPCatalog(data=arr[sel].copy(), region=other)
+            for call in ('spatial_counts', 'spatial_event_probability', 'get_spatial_idx'):
+                try:
+                    getattr(hc, call)()
+                except Exception:
+                    pass
+            hc.region = reg
+            must_raise = bool(masked[sel].any())
+            try:
+                got_c = hc.spatial_counts()
+                got_p = hc.spatial_event_probability()
+                got_i = hc.get_spatial_idx()
+                evals += 3
+                if must_raise:
+                    fail('spatial_counts', 'stale-after-rebinding-the-catalog-to-another-region',
+                         f'catalog gridded on {label}, then catalog.region = this region: events in inactive cells were counted ({numpy.asarray(got_c).tolist()}) instead of rejected')
+                else:
+                    want_c = numpy.bincount(idx[sel], minlength=n).astype(float)
+                    if not (numpy.array_equal(got_c, want_c) and numpy.array_equal(got_p, (want_c > 0).astype(float)) and numpy.array_equal(got_i, idx[sel])):
+                        fail('spatial_counts', 'stale-after-rebinding-the-catalog-to-another-region',
+                             f'catalog gridded on {label}, then catalog.region = this region: counts {numpy.asarray(got_c).tolist()} expected {want_c.tolist()}')
+            except ValueError:
+                evals += 1
+                if not must_raise:
+                    fail('spatial_counts', 'ValueError-after-rebinding', 'all events lie in active cells of this region')
+            except Exception as e:
+                fail('spatial_counts', f'{type(e).__name__}-after-rebinding', f'{type(e).__name__}: {e}')
     cat = CSEPCatalog(data=arr[~masked].copy(), region=reg)
     want_counts = numpy.bincount(idx[~masked], minlength=n).astype(float)
     try:
